@@ -69,6 +69,52 @@ func Programs() map[string]string {
 			out[fmt.Sprintf("policy %d for %s", k, a.Name)] = fmt.Sprintf("%x err=%v", h[:8], err)
 		}
 	}
+	for _, a := range []*arch.Info{arch.X86_64, arch.I386, arch.ARM, arch.AARCH64} {
+		a := a
+		actionPrograms(out, a.Name, func(p *seccomp.Policy) bool { return setArch(p, a) })
+	}
+	return out
+}
+
+// every action constant the package exports (ActionUserNotify has no name: as a default action it is refused - everywhere)
+var allActions = []seccomp.Action{seccomp.ActionKillThread, seccomp.ActionKillProcess, seccomp.ActionTrap, seccomp.ActionErrno, seccomp.ActionTrace,
+	seccomp.ActionLog, seccomp.ActionAllow, seccomp.ActionUserNotify}
+
+// actionPrograms: every action constant as the default action and as a group's action of a one-group policy (program or error text).
+func actionPrograms(out map[string]string, archName string, set func(*seccomp.Policy) bool) {
+	for _, d := range allActions {
+		for _, g := range allActions {
+			p := seccomp.Policy{DefaultAction: d, Syscalls: []seccomp.SyscallGroup{{Names: []string{"read", "write"}, Action: g}}}
+			if !set(&p) {
+				return
+			}
+			b, err := CompileBytes(&p)
+			h := sha256.Sum256(b)
+			out[fmt.Sprintf("default %#x group %#x for %s", uint32(d), uint32(g), archName)] = fmt.Sprintf("%x err=%v", h[:8], err)
+		}
+	}
+}
+
+// TextForms: how every action constant prints and what every action / operation name (and some that are none) parses to.
+func TextForms() map[string]string {
+	out := map[string]string{}
+	for _, a := range append(append([]seccomp.Action{}, allActions...), seccomp.ActionErrno|2, 0x12340000) {
+		t, err := a.MarshalText()
+		out[fmt.Sprintf("text of action %#x", uint32(a))] = fmt.Sprintf("%q %q err=%v", a.String(), t, err)
+	}
+	for _, n := range []string{"kill_thread", "kill_process", "trap", "errno", "trace", "log", "allow", "user_notify", "user_notif", "notify", "unknown", "", "ALLOW", "kill"} {
+		var a seccomp.Action
+		err := a.Unpack(n)
+		out[fmt.Sprintf("action named %q", n)] = fmt.Sprintf("%#x err=%v", uint32(a), err)
+	}
+	for _, n := range []string{"Equal", "NotEqual", "GreaterThan", "GreaterOrEqual", "LessThan", "LessOrEqual", "BitsSet", "BitsNotSet", "MaskedEqual", ""} {
+		var o seccomp.Operation
+		err := o.Unpack(n)
+		out[fmt.Sprintf("operation named %q", n)] = fmt.Sprintf("%q err=%v", string(o), err)
+	}
+	for _, f := range []seccomp.FilterFlag{0, 1, 2, 3, 4, 7, 0x8003} {
+		out[fmt.Sprintf("text of flag %#x", uint32(f))] = f.String()
+	}
 	return out
 }
 
@@ -80,6 +126,10 @@ func DefaultArchPrograms() map[string]string {
 		b, err := CompileBytes(&p)
 		h := sha256.Sum256(b)
 		out[fmt.Sprintf("policy %d for the default architecture", k)] = fmt.Sprintf("%x err=%v", h[:8], err)
+	}
+	actionPrograms(out, "the default architecture", func(*seccomp.Policy) bool { return true })
+	for k, v := range TextForms() {
+		out[k] = v
 	}
 	return out
 }
